@@ -240,6 +240,10 @@ func runCheck(args []string) int {
 	}
 	fmt.Printf("check %s %s: paths=%d obligations=%d discharged=%d undischarged=%d violations=%d known=%d unconfirmed=%d validated=%d mismatches=%d solver_queries=%d solver_s=%.1f wall=%.1fs\n",
 		id, tier, tot.Paths, tot.Obl, tot.Dis, und, nviol, len(r.matched), r.countStatus("unconfirmed"), validated, mismatches, r.sstats.Queries, r.sstats.Time.Seconds(), wall)
+	if nviol > 0 || r.unmatched > 0 {
+		// paths that end in a violation do not reach their labels: reachability is judged only on clean runs
+		broken = nil
+	}
 	for _, d := range r.xdisagree {
 		broken = append(broken, "solver disagreement: "+d)
 	}
